@@ -159,4 +159,40 @@ theorem gen_blrp_resolver_chains :
              "expBufferSize:clear>fallback(dfltExpBufferSize)"]) := by
   decide
 
+/-! ### getOptionsFromEnv: the order in which the environment readers are applied -/
+
+/-- the readers the model's `envOpts` concatenates, in its order, for signal prefix `sig` ("TRACES" / "METRICS") -/
+def modelledReaders (sig : String) : List String :=
+  ["envconfig.WithURL(ENDPOINT)", "envconfig.WithURL(" ++ sig ++ "_ENDPOINT)",
+   "envconfig.WithBool(INSECURE)", "envconfig.WithBool(" ++ sig ++ "_INSECURE)",
+   "envconfig.WithHeaders(HEADERS)", "envconfig.WithHeaders(" ++ sig ++ "_HEADERS)",
+   "WithEnvCompression(COMPRESSION)", "WithEnvCompression(" ++ sig ++ "_COMPRESSION)",
+   "envconfig.WithDuration(TIMEOUT)", "envconfig.WithDuration(" ++ sig ++ "_TIMEOUT)"]
+
+/-- in the four trace/metric `getOptionsFromEnv` the readers of the settings the model covers are applied in exactly
+the order `Otel.C20.envOpts` concatenates them — endpoint (and with it `withEndpointScheme`) before INSECURE, the
+generic variable before the signal-specific one for every setting — whatever other readers sit in between -/
+theorem gen_env_reader_order :
+    Otel.Gen.C20.traceHttpEnvReaders.filter (modelledReaders "TRACES").contains = modelledReaders "TRACES" ∧
+    Otel.Gen.C20.traceGrpcEnvReaders.filter (modelledReaders "TRACES").contains = modelledReaders "TRACES" ∧
+    Otel.Gen.C20.metricHttpEnvReaders.filter (modelledReaders "METRICS").contains = modelledReaders "METRICS" ∧
+    Otel.Gen.C20.metricGrpcEnvReaders.filter (modelledReaders "METRICS").contains = modelledReaders "METRICS" := by
+  decide
+
+/-! ### client constructors: every literal sets the export timeout -/
+
+/-- every `http.Client{…}` literal of the three HTTP client files sets `Timeout`, and every `client{…}` literal of the
+three gRPC `newClient` functions sets `exportTimeout` (a construction branch that forgets the field — seeded
+C14-12 / C20-11 — silently exports without a deadline) -/
+theorem gen_client_literals_set_timeout :
+    (∀ l ∈ Otel.Gen.C20.traceHttpClientLiterals ++ Otel.Gen.C20.metricHttpClientLiterals ++ Otel.Gen.C20.logHttpClientLiterals,
+        (l.map (·.1)).contains "Timeout" = true) ∧
+    (∀ l ∈ Otel.Gen.C20.traceGrpcClientLiterals ++ Otel.Gen.C20.metricGrpcClientLiterals ++ Otel.Gen.C20.logGrpcClientLiterals,
+        (l.map (·.1)).contains "exportTimeout" = true) := by decide
+
+/-- the model side of the same fact: every branch of `newClientM` carries the configured timeout -/
+theorem gen_model_clients_carry_timeout (exp : Exp) (b : Build) (c : Cfg) : (newClientM exp b c).timeout = c.timeout := by
+  unfold newClientM
+  cases exp.isHttp <;> cases b.tls <;> cases b.proxy <;> cases exp.isLog <;> simp
+
 end Otel.C20.GenTie
